@@ -133,6 +133,10 @@ def group(values, min_len: Optional[Integer] = None, max_len: Optional[Integer] 
     """
     original = np.asanyarray(values)
 
+    # there are no groups in an empty array
+    if len(original) == 0:
+        return []
+
     # save the sorted order and then apply it
     order = original.argsort()
     values = original[order]
